@@ -698,8 +698,10 @@ def correspondence(ctx, psk_max, qam_max, snrs, lengths):
             se = float(m.calcTheoreticalSpectralEfficiency(snrs[i], L))
             mper = core.s2f(drv.ask(['per %s %d' % (core.f2s(float(ber[i])), L)])[0])
             mse = core.s2f(drv.ask(['se %s %s' % (core.f2s(math.log2(M)), core.f2s(mper))])[0])
-            # 1-(1-BER)^L cancels for tiny BER: both sides carry an absolute rounding error of a few ulp of 1
-            ok = (rel_close(per, mper, 1e-9) or abs(per - mper) <= 4 * SLACK) and rel_close(se, mse, 1e-9)
+            # 1-(1-BER)^L cancels for tiny BER, and (1-BER)^L is L roundings in the model (repeated product) and
+            # a pow call in numpy: each side carries an absolute rounding error of up to about (L+2) 2^-53
+            # (thorough, seed 2: L = 10^4, PER = 4.2e-7, the two sides 8.7e-14 apart)
+            ok = (rel_close(per, mper, 1e-9) or abs(per - mper) <= (L + 2.0) * SLACK) and rel_close(se, mse, 1e-9)
             ctx.corr('PER/SE.' + kind, {'M': M, 'snr': snrs[i], 'L': L}, 'match' if ok else (per, se),
                      'match' if ok else (mper, mse), key=('per', kind, M, L))
         se0 = float(m.calcTheoreticalSpectralEfficiency(snrs[0]))
